@@ -55,6 +55,9 @@ var glUnits = []glUnit{
 	{"GoParse", []glTarget{
 		{"service", "packageParse", "unpack"},
 	}},
+	{"GoTerm", []glTarget{
+		{"terminal", "Terminal", "CreateCommandData"},
+	}},
 	{"GoRtp", []glTarget{
 		{"protocol/jt1078", "Packet", "Decode"},
 	}},
